@@ -23,6 +23,9 @@ CHECKS = {
  "C08": ("proof", "Header codec bijection as proof obligations, all discharged on every run: RdhCru and all nested structs are repr(packed) with contiguous fields summing to 64 bytes (23 integer leaves), every leaf is decoded by a little-endian read of exactly its layout byte range with no masking (symbolic evaluation of from_buf over the 512 wire bits), to_byte_slice exposes (address of the value, size_of::<T>()) and is never resolved on a reference type, all ByteSlice implementors are padding-free: hence to_bytes(from_buf(b)) = b for all 2^512 headers on a little-endian target. Additional structural rules in the same evidence: payload Vec<u8> is never mutably borrowed between load_payload_raw and the writer; the writer pushes header/payload pairwise, flushes header-then-payload in insertion order with one write_all, clears after the write, flushes on drop; the skip_payload and writer-selection decision tables; the filter predicate normal form.",
          "Trusted: rustc nightly front end (layouts), /verif/driver, fpv.thir evaluator, oracles/rdh_layout.json. Assumes target_endian=little (read from the session). Not decided: OS write semantics, stdout vs file differences.",
          "layout/packing facts from the compiler + symbolic decode-table equality (proof obligations) + MIR ordering/borrow rules", "DESIGN.md §3 C08"),
+ "C17": ("other", "Structural necessary conditions of an orderly stop, decided on every path: no owned channel endpoint is maybe-initialised at any JoinHandle::join (field-sensitive forward dataflow over MIR after drop elaboration; 5 join sites) and the dispatcher drops its senders before joining; every loop around a blocking recv/send leaves on the call's Err and the reader/analysis/writer loops also on the stop flag; every spawned thread's handle is joined on the normal paths of its owner; no reachable println!/print! and no unwrap/expect on a write/flush result (the two writer sites are recorded known findings F5b, the statistics println! was repaired); the writer tests the stop flag only between batches. Does not decide bounded time or liveness under all schedules.",
+         "Trusted: rustc nightly front end (drop elaboration), /verif/driver, fpv.mir maybe_init dataflow, call graph.",
+         "maybe-initialised dataflow at join sites; SCC/loop-exit control dependence; must-pass-through for joins; who-may-call for _print", "DESIGN.md §3 C17"),
 }
 
 NOT_APPLICABLE = {
